@@ -1173,7 +1173,12 @@ class EdgeQLSourceGenerator(codegen.SourceGenerator):
                 self._visit_CreateObject(
                     node, f'{node.branch_type} BRANCH', after_name=after_name)
         elif node.flavor == qltypes.SchemaObjectClass.DATABASE:
-            self._visit_CreateObject(node, 'DATABASE')
+            def after_name() -> None:
+                if node.template is not None:
+                    self._write_keywords(' FROM ')
+                    self.visit(node.template)
+            self._visit_CreateObject(
+                node, 'DATABASE', after_name=after_name)
         else:
             raise EdgeQLSourceGeneratorError(
                 f'unknown branch command flavor: {node.flavor!r}'
